@@ -576,6 +576,11 @@ def copyLayersFrom (g : Geo) (layers : List Layer) : Except Exc Geo := do
   let g ← g.columnlist.foldlM (fun (g : Geo) c => g.setColumnNumLayers c) g
   g.setupNames
 
+/-- the thickness list `refine_layers` hands to `add_layers`: a selected layer of thickness `t` becomes `factor`
+    layers of thickness `t / factor`, the others stay -/
+def refinedThicknesses (ts : List (Rat × Bool)) (factor : Nat) : List Rat :=
+  ts.flatMap fun p => if p.2 then List.replicate factor (p.1 / factor) else [p.1]
+
 /-- `refine_layers(layers, factor)` (`layers = []` means all; layer names regenerated) -/
 def refineLayers (g : Geo) (layers : List Name) (factor : Nat) : Except Exc Geo := do
   let sel ← (if layers.isEmpty then pure g.layerlist
@@ -588,9 +593,7 @@ def refineLayers (g : Geo) (layers : List Name) (factor : Nat) : Except Exc Geo 
     if factor = 0 then throw Exc.zeroDivision
     let topElevation := (g.lay l0).top
     let atmName := (g.lay l0).name
-    let thicknesses := below.flatMap fun l =>
-      let t := (g.lay l).top - (g.lay l).bottom
-      if sel.contains l then List.replicate factor (t / factor) else [t]
+    let thicknesses := refinedThicknesses (below.map fun l => ((g.lay l).top - (g.lay l).bottom, sel.contains l)) factor
     let left := !g.rightJustifiedNames
     let g ← g.clearLayers.addLayers thicknesses topElevation left
     let g ← (match g.layerlist with
